@@ -88,6 +88,10 @@ type ownGen struct {
 	roles  map[string]bool // (type x role x exit path) triples exercised
 	inFunc *gfunc
 	loop   int
+	// avoidAlias: never pass a variable (or a part of it) by value and the same variable by Referenz in one call.
+	// That construct is the recorded known finding C05/O2-const-param-alias; programs compiled at -O 2 avoid it
+	// so that any other alarm at -O 2 is a new one.
+	avoidAlias bool
 }
 
 var textLits = []string{"a", "Hallo", "äö", "x€y", "𝄞", "Welt!", "ß", "lang genug um zu wachsen"}
@@ -423,6 +427,7 @@ func (g *ownGen) literal(t gty, e *genv, d int) (string, int) {
 func (g *ownGen) call(e *genv, f *gfunc, d int) (string, bool) {
 	s := f.alias
 	var lastVar string
+	var args []string
 	for i, p := range f.params {
 		var arg string
 		if f.refs[i] {
@@ -459,8 +464,40 @@ func (g *ownGen) call(e *genv, f *gfunc, d int) (string, bool) {
 			}
 		}
 		s = strings.Replace(s, "<"+p.name+">", arg, 1)
+		args = append(args, arg)
+	}
+	if g.avoidAlias {
+		for i := range f.params {
+			if !f.refs[i] {
+				continue
+			}
+			for k := range f.params {
+				if k != i && !f.refs[k] && containsIdent(args[k], args[i]) {
+					return "", false
+				}
+			}
+		}
 	}
 	return s, true
+}
+
+// containsIdent reports whether the identifier name occurs in the expression text
+func containsIdent(expr, name string) bool {
+	for i := 0; i+len(name) <= len(expr); i++ {
+		if expr[i:i+len(name)] != name {
+			continue
+		}
+		before := i == 0 || !isIdentByte(expr[i-1])
+		after := i+len(name) == len(expr) || !isIdentByte(expr[i+len(name)])
+		if before && after {
+			return true
+		}
+	}
+	return false
+}
+
+func isIdentByte(b byte) bool {
+	return b == '_' || b >= 0x80 || (b >= '0' && b <= '9') || (b >= 'a' && b <= 'z') || (b >= 'A' && b <= 'Z')
 }
 
 func (g *ownGen) line(ind int, s string) {
@@ -740,8 +777,8 @@ ein Paar, und erstellen sie so:
 
 `
 
-func genOwnProgram(r *prng.R, idx int) *HProg {
-	g := &ownGen{r: r, roles: map[string]bool{}}
+func genOwnProgram(r *prng.R, idx int, avoidAlias bool) *HProg {
+	g := &ownGen{r: r, roles: map[string]bool{}, avoidAlias: avoidAlias}
 	g.b.WriteString(ownPrelude)
 	// functions
 	nf := r.Range(1, 4)
